@@ -627,4 +627,6 @@ def run(ck, tier):
     from ..share import import_findings as _imp2
     ck.rule('R12', 'MEI objects: (id, length, value) with length = number of value bytes on the wire (shared with C20 R1b)')
     _imp2(ck, 'C20', 'R12', ('R1b',), 'the object length field on the wire is not the length of the object value that follows')
+    ck.rule('R15', 'pre-encoded register payloads (skip_encode) are whole registers: BinaryPayloadBuilder.build() cuts to_string() into two-byte elements, zero-padding an odd tail (shared with C19 R3)')
+    _imp2(ck, 'C19', 'R15', ('R3',), 'FC16 / FC6 with skip_encode join the elements verbatim and count them: the PDU announces N registers and 2N bytes but carries one byte less', construct_contains=('.build',))
     return cx.idx
